@@ -149,8 +149,8 @@ theorem sumsq4_eq_zero {x y z w : α} : x * x + y * y + z * z + w * w = 0 ↔ x 
 
 /-- `Vec2<T>::length()` (real body, `lengthTiny` inlined, 5 paths) is `sqrt (x² + y²)` for EVERY vector and
 every threshold `tmin` — on both sides of `dot < 2*tmin`. -/
-theorem V2_length_eq (tmin : α) (hsqrt : ∀ x, 0 ≤ x → sqrt x * sqrt x = x ∧ 0 ≤ sqrt x) (a : V2 α) :
-    Gen.V2.length tmin sqrt a = sqrt (a.x * a.x + a.y * a.y) := by
+theorem V2_length_eq (tmin tmax : α) (hsqrt : ∀ x, 0 ≤ x → sqrt x * sqrt x = x ∧ 0 ≤ sqrt x) (a : V2 α) :
+    Gen.V2.length tmin tmax sqrt a = sqrt (a.x * a.x + a.y * a.y) := by
   obtain ⟨x, y⟩ := a
   simp only [Gen.V2.length, sabs_eq_abs_c08]
   have hx := abs_nonneg x; have hy := abs_nonneg y
@@ -165,8 +165,8 @@ theorem V2_length_eq (tmin : α) (hsqrt : ∀ x, 0 ≤ x → sqrt x * sqrt x = x
 
 /-- `Vec3<T>::length()` (real body, `lengthTiny` inlined, 65 paths) is `sqrt (x² + y² + z²)` for EVERY
 vector and every threshold `tmin`. -/
-theorem V3_length_eq (tmin : α) (hsqrt : ∀ x, 0 ≤ x → sqrt x * sqrt x = x ∧ 0 ≤ sqrt x) (a : V3 α) :
-    Gen.V3.length tmin sqrt a = sqrt (a.x * a.x + a.y * a.y + a.z * a.z) := by
+theorem V3_length_eq (tmin tmax : α) (hsqrt : ∀ x, 0 ≤ x → sqrt x * sqrt x = x ∧ 0 ≤ sqrt x) (a : V3 α) :
+    Gen.V3.length tmin tmax sqrt a = sqrt (a.x * a.x + a.y * a.y + a.z * a.z) := by
   obtain ⟨x, y, z⟩ := a
   simp (config := { maxSteps := 10000000 }) only [Gen.V3.length]
   have hS0 : 0 ≤ x * x + y * y + z * z := add_nonneg (add_nonneg (mul_self_nonneg _) (mul_self_nonneg _)) (mul_self_nonneg _)
@@ -178,15 +178,15 @@ theorem V3_length_eq (tmin : α) (hsqrt : ∀ x, 0 ≤ x → sqrt x * sqrt x = x
     | (refine scaled_div hsqrt (lt_of_le_of_ne' (by linarith) (by assumption)) hS0 (by ring))
 
 /-- the form used by callers that only need "`length` is the non-negative root of the dot product" -/
-theorem V2_length_sq (tmin : α) (hsqrt : ∀ x, 0 ≤ x → sqrt x * sqrt x = x ∧ 0 ≤ sqrt x) (a : V2 α) :
-    Gen.V2.length tmin sqrt a * Gen.V2.length tmin sqrt a = a.x * a.x + a.y * a.y ∧ 0 ≤ Gen.V2.length tmin sqrt a := by
-  rw [V2_length_eq tmin hsqrt a]
+theorem V2_length_sq (tmin tmax : α) (hsqrt : ∀ x, 0 ≤ x → sqrt x * sqrt x = x ∧ 0 ≤ sqrt x) (a : V2 α) :
+    Gen.V2.length tmin tmax sqrt a * Gen.V2.length tmin tmax sqrt a = a.x * a.x + a.y * a.y ∧ 0 ≤ Gen.V2.length tmin tmax sqrt a := by
+  rw [V2_length_eq tmin tmax hsqrt a]
   exact hsqrt _ (add_nonneg (mul_self_nonneg _) (mul_self_nonneg _))
 
-theorem V3_length_sq (tmin : α) (hsqrt : ∀ x, 0 ≤ x → sqrt x * sqrt x = x ∧ 0 ≤ sqrt x) (a : V3 α) :
-    Gen.V3.length tmin sqrt a * Gen.V3.length tmin sqrt a = a.x * a.x + a.y * a.y + a.z * a.z ∧
-      0 ≤ Gen.V3.length tmin sqrt a := by
-  rw [V3_length_eq tmin hsqrt a]
+theorem V3_length_sq (tmin tmax : α) (hsqrt : ∀ x, 0 ≤ x → sqrt x * sqrt x = x ∧ 0 ≤ sqrt x) (a : V3 α) :
+    Gen.V3.length tmin tmax sqrt a * Gen.V3.length tmin tmax sqrt a = a.x * a.x + a.y * a.y + a.z * a.z ∧
+      0 ≤ Gen.V3.length tmin tmax sqrt a := by
+  rw [V3_length_eq tmin tmax hsqrt a]
   exact hsqrt _ (add_nonneg (add_nonneg (mul_self_nonneg _) (mul_self_nonneg _)) (mul_self_nonneg _))
 
 end
